@@ -48,7 +48,8 @@ theorem C04_accept_rows (c : Trace.Code) (O : Trace.Options) (ext : Ext) (n : St
     (by
       intro r hr
       obtain ⟨v, hv, rfl⟩ := List.mem_map.mp hr
-      exact ⟨(ser_ok t v (hwt v hv)).1, lv t v, C04_interpRow_partial ext o n fs v fields hfrag (hwt v hv) hroot⟩)
+      exact ⟨(ser_ok t v (hwt v hv)).1, lv t v, C04_interpRow_partial ext o n fs v fields (frag_fragE _ hfrag) (hwt v hv)
+        (frag_inScope o _ _ hfrag) hroot⟩)
     (by rw [hroom]; exact hcap)
 
 /-- `C04_accept_rows` with `Safe` derived, for tracing options without `string_dictionary_encoding` -/
